@@ -82,8 +82,13 @@ def known(problem):
     return [float(v) for v in ko.point.floatVariables], float(ko.functionValues[0].value)
 
 
+def job_wall():
+    d = 1500 if os.environ.get('VERIF_TIER', '') == 'thorough' or '--tier thorough' in ' '.join(sys.argv) else 420
+    return int(os.environ.get('VERIF_JOB_WALL', d))
+
+
 def nra(name, timeout_ms=60000):
-    return Explorer(mode='EXACT', logic='QF_NRA', name=name, timeout_ms=timeout_ms, ratfun=True, scratch=True)
+    return Explorer(mode='EXACT', logic='QF_NRA', name=name, timeout_ms=timeout_ms, ratfun=True, scratch=True, wall_s=job_wall())
 
 
 def x_range_to_t(t, u, v, base=2):
